@@ -131,8 +131,9 @@ func appendUnique(xs []string, x string) []string {
 }
 
 type BaselineEntry struct {
-	Kind  string   `json:"kind"`
-	Props []string `json:"props"`
+	Kind    string   `json:"kind"`
+	Props   []string `json:"props"`
+	Seconds float64  `json:"seconds,omitempty"`
 }
 
 type Baseline struct {
@@ -245,13 +246,16 @@ func cmdBaseline(args []string) int {
 		}
 	}
 	fmt.Printf("%d obligations (%d with a property), encoded in %.1fs\n", len(rc.obls), len(sel), time.Since(t0).Seconds())
-	res := solveAll(rc.w, sel, *tier, 16, "")
+	res := solveAll(rc.w, sel, *tier, 10, "")
 	bl := Baseline{Obligations: map[string]BaselineEntry{}}
 	counts := map[string]int{}
 	for _, r := range res {
 		counts[r.Status]++
 		if r.Status == "discharged" {
-			bl.Obligations[r.Obl.Name] = BaselineEntry{Kind: r.Obl.Kind, Props: oblProps(rc.w, r.Obl)}
+			bl.Obligations[r.Obl.Name] = BaselineEntry{Kind: r.Obl.Kind, Props: oblProps(rc.w, r.Obl), Seconds: round3(r.Seconds)}
+			if r.Seconds > 4 {
+				fmt.Printf("SLOW %.1fs %s (%s)\n", r.Seconds, r.Obl.Name, r.Solver)
+			}
 		} else if r.Obl.Kind != "panic" && !strings.HasPrefix(r.Obl.Label, "nonnil.") {
 			fmt.Printf("NOT DISCHARGED %-9s %s %s\n", r.Status, r.Obl.Name, firstLines(nonModel(r.Output), 1))
 		}
@@ -345,8 +349,8 @@ func cmdCheck(args []string) int {
 			o.Short = true
 		}
 	}
-	res := solveAll(rc.w, sel, *tier, 16, "")
-	cres := solveAll(rc.w, covers, *tier, 16, "")
+	res := solveAll(rc.w, sel, *tier, 10, "")
+	cres := solveAll(rc.w, covers, *tier, 10, "")
 	byObl := map[*Obl]*Result{}
 	for _, r := range res {
 		byObl[r.Obl] = r
